@@ -13,7 +13,7 @@ TARGETS = ['C15/Props.vo', 'C15/Corr.vo']
 MODEL_TARGETS = ['C15/Corr.vo']
 PROPS_FILE = 'C15/Props.v'
 PROPS_MODULE = 'QV.C15.Props'
-CORR_IMPORTS = ['QV.C15.Model', 'QV.C15.Spec', 'QV.C15.ModelQ', 'QV.C15.ModelMC', 'QV.C15.Corr']
+CORR_IMPORTS = ['QV.C15.Model', 'QV.C15.Spec', 'QV.C15.ModelQ', 'QV.C15.ModelMC', 'QV.C15.ModelF', 'QV.C15.Corr']
 CHECK_CORR = 'check_corr'
 CHECK_SPEC = 'check_spec'
 SHARD = 60
@@ -39,22 +39,39 @@ RULE = ('templates: random trees over atoms (5 distinct waveforms), sequences, r
         'that has to be unrolled).  Plus a stream of single volatile counts updated with '
         'dyadic non-integer values, a make_compatible stream (atoms of 96/192/384/576 samples, minimal waveform '
         'length 96..576, quantum 16/32/64/192; modelled in Coq) and a small duration stream (Loop.duration of the '
-        'root after every update vs. a fresh instantiation; Python oracle, not modelled).  Thorough adds the full pipeline grids of the '
+        'root after every update vs. a fresh instantiation; Python oracle, not modelled).  Round 4: family split_mixed '
+        '(Tabor: ONE too short, non-mergeable sequencer table whose entries are every word of length 1..3 over {fixed '
+        'repeated, volatile repeated, plain} with at least one volatile entry, min_seq_len = length + 1 / + 2, table '
+        'count 1/2/3, alone / after / between full tables, cleanup or not: reaches _check_partial_unroll / '
+        'Loop.split_one_child incl. the fall-back to a volatile entry), a float stream (kind float: ONE volatile count '
+        'given as quotient / product / sum of DECIMAL parameter values - x/y, x*y, 100*x, x/y+1, x*z/y, (x+z)/y, x/y-z, '
+        '2*x/y, also through a MappingPT - evaluated in binary64 as float or numpy.float64 or exactly as TimeType; '
+        'values K*p/p for 14 decimal periods p so that the float result is just below, just above or exactly the '
+        'integer K, the tolerance window K +- d for d around 1e-6, ties; also inexact at instantiation; observed: count '
+        'and "no integer" warning after every update, count of a fresh instantiation, advanced + sequencer table '
+        'after update_volatile_parameters vs. a fresh compilation), families for_loop (volatile counts inside a '
+        'ForLoopPT: the model sees the unrolled sequence of index bindings; index called like a volatile parameter), '
+        'meas_merge (measurements on a repetition and on its count-1 child), too_long (tables longer than max_seq_len '
+        'in SINGLE / ADVANCED mode), pipeline cleanup(actions=(merge_single_child,)).  Thorough adds the full pipeline grids of the '
         'families and the exhaustive enumeration of all templates with <= 3 composite nodes (4 composite nodes over a '
         'further reduced alphabet) x all volatile subsets.  Non-trivial = some repetition count is volatile and some '
         'update changes its value.')
 TRUSTED = [
     'Coq 8.16.1 kernel + vm_compute',
     'sympy: parsing/evaluation of the integer polynomial count expressions and its structural equality (used by the '
-    'de-duplication of sequencer tables; the model compares polynomial normal forms, exact on the generated class)',
+    'de-duplication of sequencer tables; the model compares polynomial normal forms, exact on the generated class); '
+    'float stream: sympy prints the count expression as the Python operation tree the generator lists (checked by '
+    'correspondence on every case), CPython / numpy binary64 arithmetic is IEEE-754 round-to-nearest-even',
     'harness: generators, observation of Loop trees / Tabor tables through repetition_count, volatile_repetition, '
     'get_sequencer_tables, get_advanced_sequencer_table, _parsed_program.volatile_parameter_positions',
     'waveform sampling/quantisation is not part of this property (atoms are constant waveforms of 192 samples; in the '
     'make_compatible stream 96/192/384/576 samples, a concatenated waveform is read back as the list of atoms it plays)',
 ]
 ASSUMPTIONS = [
-    'count expressions are integer polynomials; non-integer parameter values only in the separate rational stream '
-    '(dyadic values; the 1e-6 tolerance of checked_int_cast is outside the model)',
+    'count expressions of the tree / Tabor / make_compatible streams are integer polynomials; non-integer parameter '
+    'values in the rational stream (dyadic values, exact) and in the float stream (decimal values; binary64 rounding '
+    'of every operation and the 1e-6 tolerance of is_integer / checked_int_cast ARE modelled, ModelF.v; normal range '
+    'only: no overflow / subnormals; mixed float-TimeType arithmetic and numpy.float32 are outside the model)',
     'counts <= 64 (model bound for unrolling); measurements are modelled as a has-measurement flag only',
     'make_compatible: sample rate 1 and integer atom lengths (incompatible_fraction does not occur); to_waveform of a '
     'count-0 loop is outside the generated class (such loops are dropped at instantiation)',
@@ -145,10 +162,18 @@ def expr_pool(rng, names):
 
 # ---------------------------------------------------------------------------------------------------------------------
 # templates: ['atom', w] | ['seq', [..]] | ['rep', expr, meas, body] | ['map', [[name, expr], ..], body]
+def desugar1(p):
+    """['for', index, k, body] (ForLoopPT over range(k)) = the sequence of the k bodies with the index bound to 0..k-1;
+    this is what the Coq model and the reference walks see"""
+    return ['seq', [['map', [[p[1], ['c', j]]], p[3]] for j in range(p[2])]]
+
+
 def pt_free(p):
     k = p[0]
     if k == 'atom':
         return set()
+    if k == 'for':
+        return pt_free(p[3]) - {p[1]}
     if k == 'seq':
         return set().union(*[pt_free(q) for q in p[1]]) if p[1] else set()
     if k == 'rep':
@@ -181,6 +206,8 @@ def gen_pt(rng, depth, names):
 
 def pt_coq(p):
     k = p[0]
+    if k == 'for':
+        return pt_coq(desugar1(p))
     if k == 'atom':
         return '(PAtom %d%%N)' % p[1]
     if k == 'seq':
@@ -193,6 +220,8 @@ def pt_coq(p):
 def ref_inst(p, sigma, delta):
     """independent reference walk: list of (count, volatile?, children | waveform) ; used for sizing and classify"""
     k = p[0]
+    if k == 'for':
+        return ref_inst(desugar1(p), sigma, delta)
     if k == 'atom':
         return [(1, False, p[1])]
     if k == 'seq':
@@ -227,6 +256,8 @@ def ref_size(nodes):
 def ref_dropped_volatile(p, sigma, delta):
     """does the instantiation drop a repetition (count <= 0) whose count depends on a volatile parameter?"""
     k = p[0]
+    if k == 'for':
+        return ref_dropped_volatile(desugar1(p), sigma, delta)
     if k == 'atom':
         return False
     if k == 'seq':
@@ -244,6 +275,8 @@ def ref_dropped_volatile(p, sigma, delta):
 def ref_negative_chain(p, sigma, delta, above=False):
     """is a volatile repetition with a negative raw count nested inside another such repetition?"""
     k = p[0]
+    if k == 'for':
+        return ref_negative_chain(desugar1(p), sigma, delta, above)
     if k == 'atom':
         return False
     if k == 'seq':
@@ -590,15 +623,123 @@ def fam_vol_fixed_twin():
     return out
 
 
+def split_mixed_cases(rng, tier):
+    """Tabor (round 4, seed C15-6): ONE sequencer table shorter than min_seq_len that cannot be merged with a
+    neighbour (the table itself is repeated a fixed number of times, or its neighbours are full) and whose entries
+    mix fixed repeated entries F (3 x a), volatile repeated entries V (n x b, n > 1 at instantiation) and plain
+    entries P in EVERY order (all words of length 1..3 over {F, V, P} with at least one V): _check_partial_unroll /
+    Loop.split_one_child must pick the last FIXED repeated entry and fall back to a volatile one only when there is
+    no other; min_seq_len = length + 1 / + 2 (one split / several splits incl. the fall-back after the fixed entry is
+    used up), with and without unroll_children first, with cleanup and without, alone and between other tables"""
+    n = V_('n')
+    words = [w for L in (1, 2, 3) for w in itertools.product('FVP', repeat=L) if 'V' in w]
+    cases = []
+    for wi, w in enumerate(words):
+        entries = []
+        for j, ch in enumerate(w):
+            a = A_(j + wi)
+            entries.append(R_(C_(3 if j % 2 == 0 else 2), a) if ch == 'F' else
+                           R_(n if j % 2 == 0 or w.count('V') == 1 else add_(n, C_(1)), a) if ch == 'V' else a)
+        body = S_(*entries) if len(entries) > 1 else entries[0]
+        grid = [(c, dm, cl, md, ctx, n0) for c in (2, 3, 1) for dm in (1, 2) for cl in (True, False)
+                for md in (None, 'advanced') for ctx in ('alone', 'between', 'after') for n0 in (4, 2, 1)]
+        if tier == 'thorough':
+            pick = grid
+        else:
+            pick = [(2, 1, True, None, 'alone', 4), (2, 1, False, 'advanced', 'between', 2),
+                    grid[(wi * 37 + 11) % len(grid)], grid[(wi * 53 + 5) % len(grid)], (3, 2, True, None, 'after', 2)]
+        for c, dm, cl, md, ctx, n0 in dict.fromkeys(pick):
+            tab = R_(C_(c), body)
+            full = R_(C_(2), S_(A_(wi + 1), A_(wi + 2), A_(wi + 3), A_(wi + 4)))
+            blocks = [tab] if ctx == 'alone' else [full, tab, full] if ctx == 'between' else [full, tab]
+            pt = S_(*blocks) if len(blocks) > 1 else tab
+            ups = [{'n': 6 if n0 != 4 else 5}, {'n': 1}, {'n': 3}]
+            if not sizes_ok(pt, {'n': n0}, {'n'}, ups):
+                continue
+            mn = len(w) + dm
+            cases.append({'kind': 'tabor', 'pt': pt, 'vals': {'n': n0}, 'V': ['n'], 'ups': ups, 'fam': 'split_mixed',
+                          'cl': cl, 'mode': md, 'mn': mn, 'mx': max(8, mn), 'vt': rng.choice(VTS),
+                          'alias': rng.random() < 0.3})
+    return cases
+
+
+def F_(idx, k, body):
+    return ['for', idx, k, body]
+
+
+def fam_for_loop():
+    """round 4 (coverage audit; ForLoopPT binds its index through a RangeScope around the volatile DictScope): volatile
+    counts inside a ForLoopPT - the same count in every iteration, counts that depend on the loop index (n + k, n * k:
+    zero in the first iteration), a loop index that is called like a volatile parameter (must NOT become volatile)"""
+    n, k, x, m = V_('n'), V_('k'), V_('x'), V_('m')
+    shapes = [
+        (F_('k', 3, S_(R_(n, A_(0)), R_(add_(k, C_(1)), A_(1)))), {'n': 2}, ['n'], 'n'),
+        (S_(F_('k', 3, R_(add_(k, C_(1)), A_(0))), R_(n, A_(1))), {'n': 2}, ['n'], 'n'),
+        (F_('k', 3, R_(add_(n, k), A_(0))), {'n': 1}, ['n'], 'n'),
+        (F_('k', 3, R_(mul_(n, k), A_(0))), {'n': 1}, ['n'], 'n'),
+        (F_('k', 2, R_(n, S_(A_(0), R_(add_(k, C_(1)), A_(1))))), {'n': 2}, ['n'], 'n'),
+        (R_(n, F_('k', 2, R_(add_(k, C_(1)), A_(0)))), {'n': 2}, ['n'], 'n'),
+        (M_([('n', mul_(C_(2), x))], F_('k', 2, R_(add_(n, k), A_(0)))), {'x': 1}, ['x'], 'x'),
+        (M_([('n', mul_(C_(2), x))], F_('k', 2, R_(add_(n, k), S_(A_(0), A_(1)))), True), {'x': 1}, ['x'], 'x'),
+        (S_(R_(n, A_(1)), F_('n', 2, R_(add_(n, C_(1)), A_(0)))), {'n': 2}, ['n'], 'n'),
+        (F_('n', 3, S_(A_(2), R_(add_(n, C_(1)), A_(0)))), {}, [], None),
+        (R_(C_(2), F_('k', 2, S_(R_(n, A_(0)), R_(add_(k, C_(2)), A_(1))))), {'n': 2}, ['n'], 'n'),
+        (F_('k', 2, F_('m', 2, R_(add_(add_(n, k), m), A_(0)))), {'n': 1}, ['n'], 'n'),
+    ]
+    out = []
+    for pt, vals, V, v in shapes:
+        out.append((pt, vals, V, [{v: 3}, {v: 1}] if v else [{'n': 3}]))
+    return out
+
+
+def fam_meas_merge():
+    """round 4 (coverage audit): a repetition WITH measurements whose single child is a count-1 repetition with
+    measurements as well (Loop._merge_single_child joins the two measurement lists), volatile / fixed outer count"""
+    n, m = V_('n'), V_('m')
+    shapes = [
+        (R_(n, R_(C_(1), A_(0), True), True), {'n': 2}, ['n']),
+        (R_(C_(2), R_(C_(1), S_(A_(0), R_(n, A_(1))), True), True), {'n': 2}, ['n']),
+        (R_(n, R_(C_(1), R_(m, A_(0)), True), True), {'n': 2, 'm': 2}, ['n', 'm']),
+        (R_(n, R_(m, A_(0), True), True), {'n': 2, 'm': 1}, ['n']),
+        (S_(R_(n, R_(C_(1), A_(0), True), True), R_(C_(1), R_(n, A_(1), True), True)), {'n': 1}, ['n']),
+        (R_(C_(1), R_(n, R_(C_(1), A_(2), True)), True), {'n': 3}, ['n']),
+        # measurements go to the ENCLOSING loop: root (outer's) -> Loop(1) (inner's) -> Loop(n): the root merges its
+        # count-1 child and joins the two measurement lists
+        (R_(C_(1), R_(n, A_(0), True), True), {'n': 2}, ['n']),
+        (R_(C_(1), R_(C_(1), R_(n, S_(A_(0), A_(1)), True), True), True), {'n': 2}, ['n']),
+    ]
+    return [(pt, vals, V, [{'n': 3}, {'n': 1}]) for pt, vals, V in shapes]
+
+
+def too_long_cases(rng, tier):
+    """round 4 (coverage audit): sequencer tables longer than max_seq_len - TaborException in SINGLE mode
+    (setup_single_sequence_mode) and in ADVANCED mode (prepare_program_for_advanced_sequence_mode); exactly at the
+    limit it compiles"""
+    n = V_('n')
+    five = [A_(i) for i in range(5)]
+    shapes = [S_(*five), R_(n, S_(*five)), S_(R_(C_(2), S_(*five)), R_(n, S_(A_(0), A_(1)))),
+              S_(R_(n, S_(A_(0), A_(1), A_(2))), R_(C_(2), S_(*five))), S_(R_(n, A_(0)), *five[:4])]
+    cases = []
+    for i, pt in enumerate(shapes):
+        for mx in (4, 5):
+            for md in (None, 'single', 'advanced'):
+                if tier != 'thorough' and (i + mx + (0 if md is None else len(md))) % 2:
+                    continue
+                cases.append({'kind': 'tabor', 'pt': pt, 'vals': {'n': 2}, 'V': ['n'], 'ups': [{'n': 3}], 'fam': 'too_long',
+                              'cl': i % 2 == 0, 'mode': md, 'mn': 1, 'mx': mx, 'vt': 'int', 'alias': False})
+    return cases
+
+
+FAMILIES4 = [('for_loop', fam_for_loop), ('meas_merge', fam_meas_merge)]
 FAMILIES = [('zero_mid', fam_zero_mid), ('vol_neighbour_one', fam_vol_neighbour_one), ('named_maps', fam_named_maps),
             ('shared_before', fam_shared_before), ('same_param_twice', fam_same_param_twice),
             ('internal_names', fam_internal_names), ('vol_fixed_twin', fam_vol_fixed_twin)]
 TABOR_FAMS = {'vol_neighbour_one', 'shared_before'}
 
 
-def family_cases(rng, tier):
+def family_cases(rng, tier, families=None):
     cases = []
-    for fname, fn in FAMILIES:
+    for fname, fn in (families or FAMILIES):
         for idx, (pt, vals, V, ups) in enumerate(fn()):
             if not sizes_ok(pt, vals, set(V), ups):
                 raise RuntimeError('family %s shape %d too large' % (fname, idx))
@@ -613,6 +754,8 @@ def family_cases(rng, tier):
                     variants.append({'kind': 'tabor', 'cl': cl, 'mode': md, 'mn': mn, 'mx': mx})
             else:
                 pls = TREE_PLS + ['flat0', 'flat3'] if tier == 'thorough' else [TREE_PLS[idx % 4], TREE_PLS[(idx + 1 + idx // 4) % 4]]
+                if fname in ('for_loop', 'meas_merge'):
+                    pls = (pls if tier == 'thorough' else ['cleanup', TREE_PLS[idx % 4]]) + ['cleanupm']
                 if fname == 'vol_fixed_twin' and tier != 'thorough':
                     pls = ['flat1', 'flat2', 'cleanup'] if idx >= 21 else [TREE_PLS[idx % 4]]
                 for pl in dict.fromkeys(pls):
@@ -678,6 +821,189 @@ def gen_frac(rng):
     raise RuntimeError('generator could not produce a frac case')
 
 
+# ---------------------------------------------------------------------------------------------------------------------
+# float stream (round 4, seed C15-5): a single volatile count whose expression is a quotient / product of DECIMAL
+# parameter values, evaluated in binary64 (or exactly, when the values are TimeType).  Values are decimal strings.
+# every template: (expression handed to RepetitionPT, mapping handed to an enclosing MappingPT or None,
+#                  operation tree in evaluation order = what sympy's lambdify prints)
+def _fx(n):
+    return ['v', n]
+
+
+FLOAT_TEMPLATES = {
+    'div': ('x / y', None, ['/', _fx('x'), _fx('y')]),
+    'mul': ('x * y', None, ['*', _fx('x'), _fx('y')]),
+    'mul100': ('100 * x', None, ['*', ['c', '100'], _fx('x')]),
+    'div_plus': ('x / y + 1', None, ['+', ['/', _fx('x'), _fx('y')], ['c', '1']]),
+    'muldiv': ('x * z / y', None, ['/', ['*', _fx('x'), _fx('z')], _fx('y')]),
+    'sumdiv': ('(x + z) / y', None, ['/', ['+', _fx('x'), _fx('z')], _fx('y')]),
+    'div_minus': ('x / y - z', None, ['-', ['/', _fx('x'), _fx('y')], _fx('z')]),
+    'map_div': ('k', {'k': 'x / y'}, ['/', _fx('x'), _fx('y')]),
+    'map_muldiv': ('k / y', {'k': 'x * z'}, ['/', ['*', _fx('x'), _fx('z')], _fx('y')]),
+    'twodiv': ('2 * x / y', None, ['/', ['*', ['c', '2'], _fx('x')], _fx('y')]),
+}
+
+
+def fe_vars(fe):
+    return [] if fe[0] == 'c' else [fe[1]] if fe[0] == 'v' else fe_vars(fe[1]) + fe_vars(fe[2])
+
+
+def fe_coq(fe, conv):
+    if fe[0] == 'c':
+        return '(FConst %s)' % vlib.gQ(fractions_of(fe[1]))
+    if fe[0] == 'v':
+        return '(FVar %d%%N)' % NAME_ID[fe[1]]
+    return '(%s %s %s)' % ({'+': 'FAdd', '-': 'FSub', '*': 'FMul', '/': 'FDiv'}[fe[0]], fe_coq(fe[1], conv), fe_coq(fe[2], conv))
+
+
+def fractions_of(s):
+    import fractions
+    return fractions.Fraction(s)
+
+
+def dec_mul(a, b):
+    import decimal
+    r = decimal.Decimal(a) * decimal.Decimal(b)
+    return format(r.normalize(), 'f')
+
+
+def fval_in(s, exact):
+    """the number a decimal string becomes when it is handed to qupulse: the nearest double, or the exact rational"""
+    import fractions
+    return fractions.Fraction(s) if exact else fractions.Fraction(float(s))
+
+
+def fe_eval_py(fe, env, exact):
+    """independent reference evaluation with plain Python floats (Fractions when exact); used by classify/histogram"""
+    import fractions
+    k = fe[0]
+    if k == 'c':
+        return fractions.Fraction(fe[1]) if exact else int(fe[1])
+    if k == 'v':
+        return fractions.Fraction(env[fe[1]]) if exact else float(env[fe[1]])
+    a, b = fe_eval_py(fe[1], env, exact), fe_eval_py(fe[2], env, exact)
+    return a + b if k == '+' else a - b if k == '-' else a * b if k == '*' else a / b
+
+
+PERIODS = ['0.1', '0.2', '0.3', '0.7', '0.05', '0.15', '1.1', '0.9', '3.3', '0.001', '0.6', '1.7', '0.007', '2.4']
+OFFSETS = ['0.0000001', '0.00000099', '0.000001', '0.00000101', '0.000005', '0.0000009999999', '0.0000010000001']
+
+
+def float_shapes():
+    """deterministic family: (template, vals, V, ups).  Quotients K*p / p for decimal periods p (the float result is
+    just below K, just above K or exactly K), products 0.57 * 100, the tolerance window K +- d / 1 around 1e-6"""
+    out = []
+    for pi, p in enumerate(PERIODS[:8]):
+        ks = [3, 6, 7, 2, 9, 5, 12, 1, 4]
+        ks = ks[pi % 3:] + ks[:pi % 3]
+        ups = [{'x': dec_mul(str(k), p)} for k in ks[:5]]
+        out.append(('div' if pi % 2 == 0 else 'map_div', {'x': dec_mul('2', p), 'y': p}, ['x'], ups))
+        out.append(('div', {'x': dec_mul(str(ks[0]), p), 'y': p}, ['x', 'y'], ups[1:4]))        # inexact at instantiation
+    out.append(('mul100', {'x': '0.02'}, ['x'], [{'x': v} for v in ('0.57', '0.58', '0.29', '0.07', '0.14', '0.55')]))
+    out.append(('mul', {'x': '0.5', 'y': '4'}, ['x', 'y'], [{'x': '0.57', 'y': '100'}, {'x': '0.1', 'y': '30'}, {'x': '1.1', 'y': '10'}]))
+    out.append(('div_plus', {'x': '0.2', 'y': '0.1'}, ['x'], [{'x': '0.3'}, {'x': '0.6'}, {'x': '0.7'}]))
+    out.append(('muldiv', {'x': '0.1', 'y': '0.1', 'z': '2'}, ['x', 'z'], [{'x': '0.3'}, {'z': '3'}, {'x': '0.7', 'z': '1'}]))
+    out.append(('map_muldiv', {'x': '0.1', 'y': '0.1', 'z': '2'}, ['x'], [{'x': '0.3'}, {'x': '0.6'}, {'x': '0.35'}]))
+    out.append(('sumdiv', {'x': '0.1', 'y': '0.1', 'z': '0.1'}, ['x', 'z'], [{'x': '0.2'}, {'z': '0.4'}, {'x': '0.3', 'z': '0.3'}]))
+    out.append(('div_minus', {'x': '0.5', 'y': '0.1', 'z': '1'}, ['x'], [{'x': '0.3'}, {'x': '0.7'}, {'x': '0.1'}]))
+    out.append(('twodiv', {'x': '0.1', 'y': '0.1'}, ['x'], [{'x': '0.15'}, {'x': '0.35'}, {'x': '0.45'}]))
+    # the tolerance window of is_integer (< 1e-6) / checked_int_cast (> 1e-6 raises): K +- d
+    import decimal
+    for i, d in enumerate(OFFSETS):
+        ups = []
+        for k, sg in ((3, -1), (3, 1), (1, -1), (7, 1)):
+            ups.append({'x': format(decimal.Decimal(k) + sg * decimal.Decimal(d), 'f')})
+        out.append(('div', {'x': '2', 'y': '1'}, ['x'], ups))
+    out.append(('div', {'x': '2', 'y': '1'}, ['x'], [{'x': '2.5'}, {'x': '3.5'}, {'x': '-0.5'}, {'x': '-2.0000001'}, {'x': '0.0000001'}]))
+    return out
+
+
+def gen_float(rng):
+    name = rng.choice(sorted(FLOAT_TEMPLATES))
+    fe = FLOAT_TEMPLATES[name][2]
+    used = sorted(set(fe_vars(fe)))
+    p = rng.choice(PERIODS)
+
+    def pick(k):
+        # values for which the EXACT (decimal) result is the integer k
+        if name in ('div', 'map_div'):
+            return {'x': dec_mul(str(k), p), 'y': p}
+        if name == 'div_plus':
+            return {'x': dec_mul(str(max(k - 1, 0)), p), 'y': p}
+        if name == 'twodiv':
+            return {'x': dec_mul(str(k), p), 'y': dec_mul('2', p)}
+        if name == 'mul100':
+            return {'x': dec_mul(str(k), '0.01')}
+        if name == 'mul':
+            q = rng.choice(['0.01', '0.1', '0.001', '0.5'])
+            return {'x': dec_mul(str(k), q), 'y': {'0.01': '100', '0.1': '10', '0.001': '1000', '0.5': '2'}[q]}
+        if name in ('muldiv', 'map_muldiv'):
+            z = rng.choice(['1', '2', '3'])
+            return {'x': dec_mul(str(k), p), 'y': dec_mul(z, p), 'z': z}
+        if name == 'sumdiv':
+            a = rng.randrange(0, k + 1)
+            return {'x': dec_mul(str(a), p), 'z': dec_mul(str(k - a), p), 'y': p}
+        return {'x': dec_mul(str(k + 1), p), 'y': p, 'z': '1'}          # div_minus
+    vals = pick(rng.choice([1, 2, 2, 3]))
+    V = [n for n in used if n != 'y' or rng.random() < 0.3] or used
+    ups = []
+    cur = dict(vals)
+    for _ in range(rng.choice([2, 3, 4])):
+        new = pick(rng.choice([1, 2, 3, 4, 5, 6, 7, 9, 11, 13, 0]))
+        us = {n: new[n] for n in V if new[n] != cur.get(n)} or {V[0]: new[V[0]]}
+        if rng.random() < 0.08:
+            import decimal
+            us[V[0]] = format(decimal.Decimal(us.get(V[0], cur[V[0]])) + decimal.Decimal(rng.choice(OFFSETS)) * rng.choice([1, -1]), 'f')
+        cur.update(us)
+        ups.append(us)
+    return {'kind': 'float', 'tmpl': name, 'vals': vals, 'V': V, 'ups': ups,
+            'vt': rng.choice(['float', 'float', 'float', 'npf', 'tt'])}
+
+
+def float_cases(rng, tier):
+    cases = []
+    for i, (name, vals, V, ups) in enumerate(float_shapes()):
+        for vt in (['float', 'npf', 'tt'] if tier == 'thorough' else ['float', ['npf', 'tt'][i % 2]]):
+            cases.append({'kind': 'float', 'tmpl': name, 'vals': dict(vals), 'V': list(V), 'ups': ups, 'vt': vt,
+                          'fam': 'float_near_integer'})
+    for _ in range(50 if tier == 'quick' else 1500):
+        cases.append(gen_float(rng))
+    if tier == 'thorough':          # small scope, exhaustive: K * p / p for K <= 30 and every period, c/100 * 100
+        for p in PERIODS:
+            for k0 in range(1, 31, 5):
+                ups = [{'x': dec_mul(str(k), p)} for k in range(k0, k0 + 5)]
+                for name in ('div', 'map_div'):
+                    cases.append({'kind': 'float', 'tmpl': name, 'vals': {'x': dec_mul('2', p), 'y': p}, 'V': ['x'],
+                                  'ups': ups, 'vt': 'float', 'fam': 'float_exhaustive'})
+        for c0 in range(1, 100, 6):
+            cases.append({'kind': 'float', 'tmpl': 'mul100', 'vals': {'x': '0.02'}, 'V': ['x'], 'vt': 'float',
+                          'ups': [{'x': dec_mul(str(c), '0.01')} for c in range(c0, min(c0 + 6, 64))] or [{'x': '0.01'}],
+                          'fam': 'float_exhaustive'})
+    return cases
+
+
+def float_classes(case):
+    """per state (instantiation, then after every update): is the float value of the count expression exactly an
+    integer / just below / just above an integer (within 1e-6) / outside the tolerance; plain Python arithmetic"""
+    import fractions
+    exact = case['vt'] == 'tt'
+    fe = FLOAT_TEMPLATES[case['tmpl']][2]
+    cur = dict(case['vals'])
+    out = []
+    for us in [{}] + list(case['ups']):
+        cur.update({k: v for k, v in us.items() if k in cur})
+        try:
+            v = fractions.Fraction(fe_eval_py(fe, cur, exact))
+        except ZeroDivisionError:
+            out.append('division_by_zero')
+            continue
+        n = round(v)
+        d = v - n
+        out.append('exact' if d == 0 else 'outside_tolerance' if abs(d) > fractions.Fraction(1e-6) else
+                   'boundary' if abs(d) == fractions.Fraction(1e-6) else 'below_integer' if d < 0 else 'above_integer')
+    return out
+
+
 def small_templates():
     """all templates with <= 3 composite nodes over a reduced alphabet, and all templates with exactly 4 composite
     nodes over a further reduced alphabet (thorough tier)"""
@@ -708,25 +1034,29 @@ def small_templates():
 
 def gen_cases(rng, tier, ctx):
     cases = family_cases(rng, tier)
-    n_tree, n_tab = (380, 260) if tier == 'quick' else (3000, 2400)
+    n_tree, n_tab = (300, 200) if tier == 'quick' else (3000, 2400)
     for i in range(n_tree):
         cases.append(gen_one(rng, 'tree', rng.choice([2, 3, 3, 4])))
     for i in range(n_tab):
         cases.append(gen_one(rng, 'tabor', rng.choice([2, 3, 3, 4])))
-    for i in range(60 if tier == 'quick' else 600):
+    for i in range(40 if tier == 'quick' else 600):
         cases.append(gen_frac(rng))
     cases.extend(compat_family(tier))
     # durations reported after an update (spec-only stream, Python oracle): family shapes with the pre-read on / off
     for idx, (pt, vals, V, ups) in enumerate(fam_zero_mid() + fam_same_param_twice()):
         if tier == 'thorough' or idx % 3 == 0:
             cases.append({'kind': 'dur', 'pt': pt, 'vals': dict(vals), 'V': sorted(V), 'ups': ups, 'pre_read': idx % 2 == 0})
-    for i in range(120 if tier == 'quick' else 1500):
+    for i in range(90 if tier == 'quick' else 1500):
         c = gen_one(rng, 'tree', rng.choice([2, 3, 3]))
         c['kind'] = 'compat'
         del c['pl']
         c['min_len'] = rng.choice([96, 192, 384, 384, 576])
         c['q'] = rng.choice([16, 16, 32, 64, 192])
         cases.append(c)
+    cases.extend(split_mixed_cases(rng, tier))
+    cases.extend(family_cases(rng, tier, FAMILIES4))
+    cases.extend(too_long_cases(rng, tier))
+    cases.extend(float_cases(rng, tier))
     if tier == 'thorough':
         seen = set()
         for p in small_templates():
@@ -783,7 +1113,7 @@ _UID = [0]
 
 def build_pt(p, memo=None, atoms=None):
     """memo (a dict) switches aliasing on: structurally identical sub-templates become the SAME template object"""
-    from qupulse.pulses import SequencePT, RepetitionPT, MappingPT
+    from qupulse.pulses import SequencePT, RepetitionPT, MappingPT, ForLoopPT
     k = p[0]
     if k == 'atom':
         return (atoms or _atoms())[p[1]]
@@ -796,6 +1126,8 @@ def build_pt(p, memo=None, atoms=None):
         r = SequencePT(*[build_pt(q, memo, atoms) for q in p[1]])
     elif k == 'rep':
         r = RepetitionPT(build_pt(p[3], memo, atoms), e_str(p[1]), measurements=[('M', 0, 1)] if p[2] else None)
+    elif k == 'for':
+        r = ForLoopPT(build_pt(p[3], memo, atoms), p[1], p[2])
     else:
         ident = None
         if len(p) > 3 and p[3]:
@@ -911,6 +1243,8 @@ def _tree_pipeline(case, vals):
             pl = case['pl']
             if pl == 'cleanup':
                 prog.cleanup()
+            elif pl == 'cleanupm':
+                prog.cleanup(actions=('merge_single_child',))     # nothing to remove in a program built by a template
             elif pl.startswith('flat'):
                 prog.flatten_and_balance(int(pl[4:]))
         except _expected():
@@ -1006,6 +1340,81 @@ def _run_frac(case):
         except ParameterNotIntegerException:
             fresh.append('nonint')
     return {'after': after, 'fresh': fresh}
+
+
+def fl_typed(s, vt):
+    if vt == 'tt':
+        from qupulse.utils.types import TimeType
+        f = fractions_of(s)
+        return TimeType.from_fraction(f.numerator, f.denominator)
+    if vt == 'npf':
+        import numpy as np
+        return np.float64(float(s))
+    return float(s)
+
+
+def _float_pt(case):
+    from qupulse.pulses import RepetitionPT, MappingPT
+    estr, mp, _ = FLOAT_TEMPLATES[case['tmpl']]
+    pt = RepetitionPT(_atoms()[0], estr)
+    if mp:
+        pt = MappingPT(pt, parameter_mapping=dict(mp), allow_partial_parameter_mapping=True)
+    return pt
+
+
+def _vol_loops(loop):
+    out = [loop] if loop.volatile_repetition is not None else []
+    for c in loop:
+        out += _vol_loops(c)
+    return out
+
+
+def _run_float(case):
+    from qupulse.pulses.repetition_pulse_template import ParameterNotIntegerException
+    pt = _float_pt(case)
+    vt = case['vt']
+    V = set(case['V'])
+    cur = {k: fl_typed(v, vt) for k, v in case['vals'].items()}
+
+    def inst(vals):
+        try:
+            prog = pt.create_program(parameters=dict(vals), volatile=V)
+        except (ParameterNotIntegerException, AssertionError):
+            return 'nonint', None
+        if prog is None:
+            return 'none', None
+        loops = _vol_loops(prog)
+        if len(loops) != 1:
+            raise RuntimeError('expected exactly one volatile loop, found %d' % len(loops))
+        return int(loops[0].repetition_count), prog
+
+    before, prog = inst(cur)
+    after, fresh, tab = [], [], []
+    if prog is None:
+        return {'before': before, 'after': after, 'fresh': fresh, 'tab': tab}
+    loop = _vol_loops(prog)[0]
+    tp = _compile(inst(cur)[1], None, 1, 8)
+    for us in case['ups']:
+        tus = {k: fl_typed(v, vt) for k, v in us.items()}
+        cur.update({k: v for k, v in tus.items() if k in cur})
+        with warnings.catch_warnings(record=True) as ws:
+            warnings.simplefilter('always')
+            c = int(loop.repetition_definition.update_volatile_dependencies(dict(tus)))
+            if int(loop.repetition_count) != c:
+                raise RuntimeError('update returned %d, the loop reports %d' % (c, int(loop.repetition_count)))
+        after.append([c, any('no integer' in str(w.message) for w in ws)])
+        f, fprog = inst(cur)
+        fresh.append(f)
+        tp.update_volatile_parameters(dict(tus))
+        tabs = tp.get_sequencer_tables()
+        if len(tabs) != 1:
+            raise RuntimeError('expected one sequencer table')
+        ftab = None
+        if fprog is not None:
+            ftp = _compile(fprog, None, 1, 8)
+            ftab = [int(e[0]) for e in ftp.get_advanced_sequencer_table()] + [int(d[0]) for d, _ in ftp.get_sequencer_tables()[0]]
+        tab.append([[int(e[0]) for e in tp.get_advanced_sequencer_table()] + [int(d[0]) for d, _ in tabs[0]], ftab])
+    return {'before': before, 'after': after, 'fresh': fresh, 'tab': tab}
 
 
 def _play(loop, out, budget):
@@ -1187,6 +1596,8 @@ def _run(case):
         return _run_dur(case)
     if case['kind'] == 'compat':
         return _run_compat(case)
+    if case['kind'] == 'float':
+        return _run_float(case)
     vals = dict(case['vals'])
     if case['kind'] == 'tree':
         before, prog = _tree_pipeline(case, vals)
@@ -1295,6 +1706,17 @@ def to_coq(case, obs):
             pt_coq(case['pt']), g_kv(case['vals']), g_names(case['V']), gZ(case['min_len']), gZ(case.get('q', 16)),
             glist(g_kv, case['ups']), gb,
             glist(lambda st: g_cotree(st['tree']), [st for st in obs['steps'] if 'tree' in st]), glist(lambda x: x, fr))
+    if case['kind'] == 'float':
+        if 'before' not in obs:
+            return 'CCrash'
+        exact = case['vt'] == 'tt'
+        gq = lambda kv: '(%d%%N, %s)' % (NAME_ID[kv[0]], vlib.gQ(fval_in(kv[1], exact)))
+        gfr = lambda f: 'None' if f == 'nonint' else '(Some None)' if f == 'none' else '(Some (Some %s))' % gZ(f)
+        return '(CFloat %s %s %s %s %s %s %s %s)' % (
+            gbool(not exact), fe_coq(FLOAT_TEMPLATES[case['tmpl']][2], None), glist(gq, sorted(case['vals'].items())),
+            glist(lambda us: glist(gq, sorted(us.items())), case['ups']), gfr(obs['before']),
+            glist(lambda a: '(%s, %s)' % (gZ(a[0]), gbool(a[1])), obs['after']), glist(gfr, obs['fresh']),
+            glist(lambda t: '(%s, %s)' % (glist(gZ, t[0]), 'None' if t[1] is None else '(Some %s)' % glist(gZ, t[1])), obs['tab']))
     if case['kind'] == 'frac':
         gq = lambda kv: '(%d%%N, %s)' % (NAME_ID[kv[0]], vlib.gQ(vlib.frac_parse(kv[1]) if isinstance(kv[1], str) else kv[1]))
         return '(CFrac %s %s %s %s %s)' % (
@@ -1305,7 +1727,7 @@ def to_coq(case, obs):
                   obs['fresh']))
     ups = glist(g_kv, case['ups'])
     if case['kind'] == 'tree':
-        pl = {'none': 'PLNone', 'cleanup': 'PLCleanup'}.get(case['pl']) or '(PLFlatten %s)' % gZ(int(case['pl'][4:]))
+        pl = {'none': 'PLNone', 'cleanup': 'PLCleanup', 'cleanupm': 'PLCleanup'}.get(case['pl']) or '(PLFlatten %s)' % gZ(int(case['pl'][4:]))
         return '(CTree %s %s %s %s %s %s %s %s)' % (
             pt_coq(case['pt']), g_kv(case['vals']), g_names(case['V']), pl, ups, g_tobs(obs['before']),
             glist(g_otree, obs['after']), glist(g_tobs, obs['fresh']))
@@ -1327,6 +1749,9 @@ def nontrivial(case, obs):
         return 'steps' in obs and len({st['fresh'] for st in obs['steps']}) > 1
     if case['kind'] == 'frac':
         return 'after' in obs and len(set(obs['after'])) > 0 and any(f == 'nonint' for f in obs['fresh'])
+    if case['kind'] == 'float':
+        # some update changes the count to a value whose float evaluation is not exactly an integer
+        return 'after' in obs and len({a[0] for a in obs['after']}) > 1 and any(k != 'exact' for k in float_classes(case))
     if case['kind'] == 'compat':
         return 'before' in obs and obs['before'].get('vol_left', False) and any(st.get('same') for st in obs['steps'])
     if 'before' not in obs:
@@ -1352,7 +1777,7 @@ def _has_named_map(p):
         return False
     if k == 'seq':
         return any(_has_named_map(q) for q in p[1])
-    if k == 'rep':
+    if k in ('rep', 'for'):
         return _has_named_map(p[3])
     return (len(p) > 3 and bool(p[3])) or _has_named_map(p[2])
 
@@ -1369,6 +1794,22 @@ def histogram_keys(case, obs):
             keys.append('frac:fresh=%s' % (f if isinstance(f, str) else 'count'))
         if 'after' not in obs:
             keys.append('crash')
+        return keys
+    if case['kind'] == 'float':
+        keys.append('float:template=' + case['tmpl'])
+        keys.append('float:value_type=' + case['vt'])
+        if case.get('fam'):
+            keys.append('family:' + case['fam'])
+        for k in sorted(set(float_classes(case))):
+            keys.append('float:' + k)
+        if 'before' not in obs:
+            keys.append('crash')
+        elif obs['before'] in ('nonint', 'none'):
+            keys.append('float:no_program')
+        if any(a[1] for a in obs.get('after', [])):
+            keys.append('float:no_integer_warning')
+        if nontrivial(case, obs):
+            keys.append('nontrivial')
         return keys
     if case['kind'] == 'compat':
         b = obs.get('before', {})
@@ -1454,6 +1895,12 @@ def classify(case, obs):
         except KeyError:
             pass
         return None
+    if case['kind'] == 'float':
+        # independent re-evaluation with plain Python floats: some cumulative value of the count expression is
+        # farther than 1e-6 from the nearest integer (then instantiation raises and update rounds)
+        if any(k == 'outside_tolerance' for k in float_classes(case)[1:]):
+            return 'C15-noninteger-update-rounds'
+        return None
     if case['kind'] == 'frac':
         # some cumulative value of the count expression is not an integer
         cur = {k: vlib.frac_parse(str(v)) for k, v in case['vals'].items()}
@@ -1529,6 +1976,9 @@ def _one_step_reductions(case):
                 res += [['rep', p[1], p[2], v] for v in subs(p[3])]
                 if p[2]:
                     res.append(['rep', p[1], False, p[3]])
+            elif k == 'for':
+                res.append(desugar1(p))
+                res += [['for', p[1], p[2], v] for v in subs(p[3])]
             elif k == 'map':
                 res += [['map', p[1], v] + p[3:] for v in subs(p[2])]
                 if len(p) > 3 and p[3]:
@@ -1548,6 +1998,8 @@ def shrink(case, obs, ctx):
     """greedy shrinking of a case on which the specification fails: every round runs all one-step reductions (fewer
     updates, smaller template, no aliasing / plain ints) on the implementation and lets the Coq specification (and
     py_spec) judge them in one coqc call; a reduction is kept only if it fails with the same classification"""
+    if case.get('kind') == 'float':
+        return _shrink_float(case, obs)
     if case.get('kind') not in ('tree', 'tabor', 'compat'):
         return case, obs
     wd = os.path.join(ctx['workdir'], 'shrink')
@@ -1567,6 +2019,33 @@ def shrink(case, obs, ctx):
         if not pick:
             break
         case, obs = cands[pick[0]], cobs[pick[0]]
+    return case, obs
+
+
+def _float_fails(case, obs):
+    """Python rendering of check_spec for the float stream (used for shrinking only)"""
+    if 'before' not in obs or not isinstance(obs['before'], int):
+        return True
+    for a, f, t in zip(obs['after'], obs['fresh'], obs['tab']):
+        if f == 'nonint' or a[0] != (0 if f == 'none' else f) or (t[1] is not None and t[0] != t[1]):
+            return True
+    return False
+
+
+def _shrink_float(case, obs):
+    want = classify(case, obs)
+    for _ in range(6):
+        ups = case['ups']
+        cands = [dict(case, ups=ups[:i] + ups[i + 1:]) for i in range(len(ups)) if len(ups) > 1]
+        if case['vt'] != 'float':
+            cands.append(dict(case, vt='float'))
+        for c in cands:
+            o = run_impl(c)
+            if 'crash' not in o and 'hang' not in o and _float_fails(c, o) and classify(c, o) == want:
+                case, obs = c, o
+                break
+        else:
+            break
     return case, obs
 
 
@@ -1617,30 +2096,31 @@ MANIFEST = {
                   'flatten_and_balance and prepare_program_for_advanced_sequence_mode commute with updates when no '
                   'VolatileModificationWarning is raised and the compilation of the updated program takes the same '
                   'decisions.  TaborProgram.update_volatile_parameters: proved in full at the level of table cells '
-                  '(every recorded position holds the new count, nothing else changes, the returned map is exactly the '
-                  'set of changed entries) under the guard that positions sharing a cell agree on the new value '
-                  '(refuted without it: known finding shared table).  New in round 3: the parser step is proved '
-                  '(C15_tabor_recompile: parse of the updated tables with the same table sharing = update of the parse; '
-                  'the shared-table guard is a consequence of equal sharing) and composed end to end '
-                  '(C15_tabor_compile_commutes: TaborProgram of the updated program = update_volatile_parameters on '
-                  'TaborProgram of the program, single and advanced mode, under no warning + same decisions + same '
-                  'sharing; refuted without the sharing hypothesis; in SINGLE sequence mode unconditionally, '
-                  'C15_tabor_single_mode).  make_compatible is modelled in Coq '
-                  '(_is_compatible, _make_compatible, to_waveform; the code as it is and with the prepared repair) and '
-                  'proved to commute with updates under same decisions + "no volatile count inside a concatenated '
-                  'waveform" (refuted without: known finding; with the repair the guard is "no warning").  '
-                  'Non-integer values: rational side model, the integer model is proved to be its restriction.',
-    'level_note': 'Trusted: Coq kernel, sympy (expression evaluation / structural equality), harness observation of '
-                  'Loop trees and Tabor tables, exact dyadic floats.  The decision lists of prepare/tabor_compile/'
-                  'make_compatible are ghost outputs of the model (the code has none); the commutation theorems are '
-                  'conditional on equal decision lists; sufficient conditions proved: SINGLE mode (unconditional), '
-                  '"the first compilation took only DSkip decisions" (C15_tabor_compile_skip_only) and "all sequence '
-                  'tables already have a valid length" (C15_prepare_decisions_long_tables); the equal-sharing '
-                  'hypothesis of the parser has no input-level condition yet.  6 known findings '
-                  '(zero count dropped, merged negative product, shared volatile table, non-integer update rounds, '
-                  'stale cached durations of the ancestors after an update (new, Python-side oracle only), '
-                  'make_compatible bakes a volatile child without warning: repair prepared, not landed because C06 '
-                  'observes the warning flag); 4 Tabor defects repaired in round 2.',
+                  'under the guard that positions sharing a cell agree on the new value (refuted without it: known '
+                  'finding shared table); the parser step (C15_tabor_recompile) and the end-to-end statement '
+                  '(C15_tabor_compile_commutes; SINGLE mode unconditionally) are proved.  make_compatible is modelled '
+                  '(code as it is and with the repair) and proved to commute with updates under its guard.  '
+                  'New in round 4: (1) counts evaluated in floating point (ModelF.v: every operation = exact operation + '
+                  'round-to-nearest-even to 53 bits on exact rationals, is_integer / checked_int_cast with the exact '
+                  'double 1e-6): for EVERY value a fresh instantiation accepts the update path yields the same count '
+                  '(C15_float_update_is_fresh), the instantiation assertion cannot fail, no warning => accepted, the '
+                  'two tolerance tests differ only on the boundary, truncation instead of rounding is refuted by '
+                  '0.3/0.1, and the integer model is the restriction of the float model below 2^53 '
+                  '(C15_float_round53_integers, C15_float_integer_restriction).  (2) Loop.split_one_child: a volatile '
+                  'entry is split only if every splittable entry is volatile (C15_split_prefers_fixed); when the fixed '
+                  'repeated entries can absorb the needed splits _check_partial_unroll adds no warning '
+                  '(C15_partial_unroll_keeps_volatile; example and counter-example of seed C15-6).',
+    'level_note': 'Trusted: Coq kernel, sympy (expression evaluation / structural equality / printed operation order), '
+                  'IEEE-754 arithmetic of CPython and numpy, harness observation of Loop trees and Tabor tables.  The '
+                  'decision lists of prepare/tabor_compile/make_compatible are ghost outputs of the model; the '
+                  'commutation theorems are conditional on equal decision lists; sufficient conditions proved: SINGLE '
+                  'mode (unconditional), only DSkip decisions, all tables already long enough; new: fixed capacity '
+                  'suffices => the splitting loop keeps volatility.  The equal-sharing hypothesis of the parser has no '
+                  'input-level condition yet.  Known findings: zero count dropped, merged negative product, shared '
+                  'volatile table, non-integer update rounds (now also: float values farther than 1e-6 from an '
+                  'integer), stale cached durations after an update (Python-side oracle only), make_compatible bakes a '
+                  'volatile child without warning (repair being landed by the C06 owner in round 4).  ForLoopPT is '
+                  'covered by unrolling on the model side (not a model constructor).',
     'technique': 'Coq proof over a hand-written model + exact correspondence check against qupulse',
     'design_ref': 'DESIGN.md §5 C15',
 }
